@@ -957,10 +957,12 @@ def _dir_cases(draw, tier):
                     ref.append(last)
         utts.append({"T": T, "ali": ali, "ref": ref})
     pad_mode = draw(st.sampled_from([None, None, "constant", "replicate", "reflect"]))
+    # references stored without segment boundaries (1-D): well-formed, but no token can be assigned to a chunk
+    ref_1d = has_ref and policy != "ref" and draw(st.sampled_from([False, False, True]))
     c = {"utts": utts, "fdim": fdim, "policy": policy, "window": draw(st.sampled_from(WINDOWS)),
          "lobe": draw(st.sampled_from([0, 0, 1, 1, 1, 2, 2, 3])), "pad_mode": pad_mode, "pad_constant": draw(st.sampled_from([0, -1, 3])),
          "partial": draw(st.sampled_from([False, False, True])), "retain": draw(st.sampled_from([False, False, False, True])),
-         "fmt": draw(st.sampled_from(["idx", "default"])), "prefix": draw(st.sampled_from(["", "", "p-"]))}
+         "fmt": draw(st.sampled_from(["idx", "default"])), "prefix": draw(st.sampled_from(["", "", "p-"])), "ref_1d": bool(ref_1d)}
     if not draw(st.sampled_from([True, False, False])):
         # what must not matter: how the stored tensors lie in memory (a saved view keeps its strides and offset), the
         # feature dtype, non-finite feature values, an output directory that already holds (part of) an earlier run
@@ -1050,7 +1052,9 @@ def _dir_check(case):
             torch.save(t, os.path.join(in_dir, "feat", base))
             if has_ali:
                 torch.save(L.lay(torch.tensor(utt["ali"], dtype=torch.long), save_lay.get("ali")), os.path.join(in_dir, "ali", base))
-            if has_ref:
+            if has_ref and case.get("ref_1d"):
+                torch.save(torch.tensor([t[0] for t in utt["ref"]], dtype=torch.long), os.path.join(in_dir, "ref", base))
+            elif has_ref:
                 torch.save(L.lay(torch.tensor(utt["ref"], dtype=torch.long).view(-1, 3), save_lay.get("ref")),
                            os.path.join(in_dir, "ref", base))
         args = [in_dir, out_dir, "--policy", case["policy"], "--window-type", case["window"], "--lobe-size", str(case["lobe"]),
@@ -1117,7 +1121,13 @@ def _dir_check(case):
                 exp = P.chunk_row(np.asarray(utt["ali"], dtype=np.int64), s, e, mode, value)
                 require(got.numpy().shape == exp.shape and bool(np.array_equal(got.numpy(), exp)),
                         "chunk %s: alignment differs from the source restricted to [%d, %d)" % (name, s, e), got, exp)
-            if has_ref:
+            if has_ref and case.get("ref_1d"):
+                # tokens without boundaries cannot be restricted to a window: documented as "always empty"
+                got = torch.load(os.path.join(out_dir, "ref", base))
+                require(got.ndim == 1 and got.dtype == torch.long and got.numel() == 0,
+                        "chunk %s: reference of a source without segment boundaries is not an empty 1-D long tensor" % name,
+                        [str(got.dtype), list(got.shape)], "int64 (0,)")
+            elif has_ref:
                 got = torch.load(os.path.join(out_dir, "ref", base))
                 require(got.ndim == 2 and got.shape[1] == 3 and got.dtype == torch.long, "chunk %s: reference is not a long (R, 3) tensor" % name,
                         [str(got.dtype), list(got.shape)], "int64 (R, 3)")
@@ -1138,6 +1148,8 @@ def _dir_check(case):
             classes.append("validated")
         if crossing:
             classes.append("padded_chunk")
+        if case.get("ref_1d"):
+            classes.append("refs_without_boundaries")
         if kept_any:
             classes.append("ref_chunk_with_token")
         if nonzero_kept:
